@@ -1,7 +1,279 @@
 import A2Verif.Model.Hex
-/-! driver family `c13` (stub until the family is built) -/
+import A2Verif.Model.Packing
+import A2Verif.Model.PackText
+import A2Verif.Model.PackRec
+/-! driver family `c13`: evaluates the packing model on the requests written by `harness/src/fam/c13.rs`
+and renders the answer exactly as the harness renders what the real code did. -/
 namespace A2Verif.Drv.C13
+open A2Verif.Hex A2Verif.Packing
 
-def handle (_toks : List String) : String := "bad-request"
+def fnv64 (bs : List Nat) : UInt64 :=
+  bs.foldl (fun h b => (h ^^^ b.toUInt64) * 0x100000001b3) 0xcbf29ce484222325
+
+def hex16 (v : UInt64) : String :=
+  let n := v.toNat
+  String.ofList ((List.range 16).map (fun i => hexDigit ((n / 16 ^ (15 - i)) % 16)))
+
+def digest (b : List Nat) : String :=
+  if b.length ≤ 24 then s!"{b.length}:{toHex b}" else s!"{b.length}:#{hex16 (fnv64 b)}"
+
+def le8 (v : Nat) : List Nat := leBytes 8 v
+
+def imgDigest (f : FImg) : String :=
+  let canon := f.chunks.foldr (fun (p : Nat × Bytes) acc => le8 p.1 ++ le8 p.2.length ++ p.2 ++ acc) []
+  s!"eof={toHex f.eof} typ={toHex f.fsType} aux={toHex f.aux} acc={toHex f.access} n={f.chunks.length} ch={digest canon}"
+
+/-- literal hex, or `@len,a,b` (byte i = (a*i+b) mod 256) -/
+def parseData (s : String) : Option (List Nat) :=
+  if s.startsWith "@" then
+    match ((s.drop 1).toString.splitOn ",").mapM (·.toNat?) with
+    | some [len, a, b] => some ((List.range len).map (fun i => (a * i + b) % 256))
+    | _ => none
+  else ofHex s
+
+def parseFs : String → Option Fs
+  | "dos" => some .dos | "prodos" => some .prodos | "pascal" => some .pascal
+  | "cpm" => some .cpm | "fat" => some .fat | _ => none
+
+def parseVariant (s : String) : Option Variant :=
+  match s.toList with
+  | [a, b, c] =>
+    match (if a = 'w' then some DosLen.wrapping else if a = 'c' then some DosLen.checked else none),
+          (if b = 'w' then some EofLen.wrapping else if b = 'c' then some EofLen.checked else none),
+          (if c = 'p' then some Deduce.panicking else if c = 't' then some Deduce.total else none) with
+    | some x, some y, some z => some ⟨x, y, z⟩
+    | _, _, _ => none
+  | _ => none
+
+/-- initial image: `eof/typ/aux/acc` of what the real `new_fimg` returned -/
+def parseInit (fs : Fs) (chunk : Nat) (s : String) : Option FImg :=
+  match (s.splitOn "/").mapM ofHex with
+  | some [eof, typ, aux, acc] => some { newFimg fs chunk [] with eof := eof, fsType := typ, aux := aux, access := acc }
+  | _ => none
+
+def parseAddr (s : String) : Option (Option Nat) :=
+  if s == "none" then some none else (s.toNat?).map some
+
+def parseLang : String → Option Lang
+  | "a" => some .applesoft | "i" => some .integer | "o" => some .other | _ => none
+
+def resBytes : Res Bytes → String
+  | .ok v => s!"ok:{digest v}"
+  | .err => "err"
+  | .panic => "panic"
+
+def optNat : Option Nat → String
+  | some v => toString v
+  | none => "panic"
+
+def hangs (f : FImg) : Bool := f.chunkLen == 0
+
+/-- `k:hex,k:hex` (or `-`) -/
+def parsePairs (s : String) : Option (List (Nat × Bytes)) :=
+  if s == "-" then some [] else
+  (s.splitOn ",").mapM (fun e =>
+    match e.splitOn ":" with
+    | [k, v] => match k.toNat?, ofHex v with
+      | some k, some v => some (k, v)
+      | _, _ => none
+    | _ => none)
+
+def renderPairs (m : List (Nat × Bytes)) : String :=
+  if m.isEmpty then "-" else ",".intercalate (m.map (fun p => s!"{p.1}:{digest p.2}"))
+
+/-- canonical text form of a JSON tree -/
+partial def renderJ : J → String
+  | .null => "z"
+  | .str s => "s" ++ toHex s
+  | .num n => "n" ++ toString n
+  | .arr xs => "a[" ++ "|".intercalate (xs.map renderJ) ++ "]"
+  | .obj kvs => "o{" ++ ",".intercalate (kvs.map (fun p => toHex p.1 ++ "=" ++ renderJ p.2)) ++ "}"
+
+def isHexish (c : Char) : Bool := c.isDigit || ('A' ≤ c && c ≤ 'F') || c == '-'
+
+mutual
+partial def parseJ (cs : List Char) : Option (J × List Char) :=
+  match cs with
+  | 'z' :: r => some (.null, r)
+  | 's' :: r =>
+    let h := r.takeWhile isHexish
+    (ofHex (String.ofList h)).map (fun b => (J.str b, r.dropWhile isHexish))
+  | 'n' :: r =>
+    let d := r.takeWhile Char.isDigit
+    ((String.ofList d).toNat?).map (fun n => (J.num n, r.dropWhile Char.isDigit))
+  | 'a' :: '[' :: r => parseArr r []
+  | 'o' :: '{' :: r => parseObj r []
+  | _ => none
+partial def parseArr (cs : List Char) (acc : List J) : Option (J × List Char) :=
+  match cs with
+  | ']' :: r => some (.arr acc.reverse, r)
+  | '|' :: r => parseArr r acc
+  | _ => match parseJ cs with
+    | some (v, r) => parseArr r (v :: acc)
+    | none => none
+partial def parseObj (cs : List Char) (acc : List (List Nat × J)) : Option (J × List Char) :=
+  match cs with
+  | '}' :: r => some (.obj acc.reverse, r)
+  | ',' :: r => parseObj r acc
+  | _ =>
+    let h := cs.takeWhile isHexish
+    match ofHex (String.ofList h), cs.dropWhile isHexish with
+    | some k, '=' :: r =>
+      match parseJ r with
+      | some (v, r') => parseObj r' ((k, v) :: acc)
+      | none => none
+    | _, _ => none
+end
+
+def parseTree (s : String) : Option J :=
+  match parseJ s.toList with
+  | some (j, []) => some j
+  | _ => none
+
+def fullDigest (f : FImg) : String :=
+  s!"ver={toHex f.fimgVersion} fs={toHex f.fileSystem} cl={f.chunkLen} {imgDigest f} accd={toHex f.accessed} cr={toHex f.created} md={toHex f.modified} vs={toHex f.version} mv={toHex f.minVersion} path={toHex f.fullPath}"
+
+def handle (toks : List String) : String :=
+  match toks with
+  | ["newfimg", fs] =>
+    match parseFs fs with
+    | some fs => let f := newFimg fs 256 []; s!"fs={toHex f.fileSystem} eof={toHex f.eof} aux={toHex f.aux}"
+    | none => "bad-request"
+  | ["bin", fs, var, chunk, init, data, addr, trailing] =>
+    match parseFs fs, parseVariant var, chunk.toNat?, parseData data, parseAddr addr, ofHex trailing with
+    | some fs, some v, some n, some d, some a, some t =>
+      match parseInit fs n init with
+      | some f =>
+        if hangs f then "hang" else
+        match packBin v fs f d a t with
+        | .ok g => s!"ok {imgDigest g} la={optNat (loadAddr fs g)} un={resBytes (unpackBin fs g)}"
+        | .err => "err"
+        | .panic => "panic"
+      | none => "bad-request"
+    | _, _, _, _, _, _ => "bad-request"
+  | ["tok", fs, var, chunk, init, data, lang, trailing] =>
+    match parseFs fs, parseVariant var, chunk.toNat?, parseData data, parseLang lang, ofHex trailing with
+    | some fs, some v, some n, some d, some l, some t =>
+      match parseInit fs n init with
+      | some f =>
+        if hangs f then "hang" else
+        match packTok v fs f d l t with
+        | .ok g => s!"ok {imgDigest g} un={resBytes (unpackTok fs g)}"
+        | .err => "err"
+        | .panic => "panic"
+      | none => "bad-request"
+    | _, _, _, _, _, _ => "bad-request"
+  | ["raw", fs, var, chunk, init, data, trunc] =>
+    match parseFs fs, parseVariant var, chunk.toNat?, parseData data, trunc.toNat? with
+    | some fs, some v, some n, some d, some tr =>
+      match parseInit fs n init with
+      | some f =>
+        if hangs f then "hang" else
+        match packRaw v fs f d with
+        | .ok g => s!"ok {imgDigest g} un={resBytes (unpackRaw fs g (tr != 0))} seq={digest (sequence g)}"
+        | .err => "err"
+        | .panic => "panic"
+      | none => "bad-request"
+    | _, _, _, _, _ => "bad-request"
+  | ["txt", fs, var, chunk, init, text] =>
+    match parseFs fs, parseVariant var, chunk.toNat?, ofHex text with
+    | some fs, some v, some n, some t =>
+      match parseInit fs n init with
+      | some f =>
+        if hangs f then "hang" else
+        match packTxt v fs f t with
+        | .ok g => s!"ok {imgDigest g} un={resBytes (unpackTxt fs g)}"
+        | .err => "err"
+        | .panic => "panic"
+      | none => "bad-request"
+    | _, _, _, _ => "bad-request"
+  | ["conv", fs, term, text] =>
+    match parseFs fs, ofHex term, ofHex text with
+    | some fs, some tm, some t =>
+      let r : Res Bytes := match fs with
+        | .dos => (match dosFromUtf8 tm t with | some b => .ok b | none => .err)
+        | .prodos => (match prodosFromUtf8 tm t with | some b => .ok b | none => .err)
+        | .pascal => pasFromUtf8 tm t
+        | .cpm | .fat => (match cpmFromUtf8 tm t with | some b => .ok b | none => .err)
+      resBytes r
+    | _, _, _ => "bad-request"
+  | ["toutf8", fs, src] =>
+    match parseFs fs, ofHex src with
+    | some fs, some b =>
+      let r : Res Bytes := match fs with
+        | .dos => .ok (dosToUtf8 b)
+        | .prodos => .ok (prodosToUtf8 b)
+        | .pascal => (match pasToUtf8 b with | some x => .ok x | none => .panic)
+        | .cpm | .fat => .ok (cpmToUtf8 b)
+      resBytes r
+    | _, _ => "bad-request"
+  | ["esc", bs, cc, inv, src] =>
+    match bs.toNat?, cc.toNat?, inv.toNat?, ofHex src with
+    | some e, some c, some i, some b => digest (escapeBytes (e != 0) (c != 0) (i != 0) b)
+    | _, _, _, _ => "bad-request"
+  | ["unesc", inv, caps, src] =>
+    match inv.toNat?, caps.toNat?, ofHex src with
+    | some i, some c, some b => digest (parseEscaped (i != 0) (c != 0) b)
+    | _, _, _ => "bad-request"
+  | ["rec", gv, fs, chunk, init, recLen, recs, unLen] =>
+    match (if gv == "s" then some RecGather.strict else if gv == "z" then some RecGather.zeroFill else none),
+          parseFs fs, chunk.toNat?, recLen.toNat?, parsePairs recs, parseAddr unLen with
+    | some gv, some fs, some n, some rl, some rs, some ul =>
+      match parseInit fs n init with
+      | some f =>
+        match packRec fs f rl rs with
+        | .ok g =>
+          let un := match unpackRec gv fs g ul with
+            | .ok m => "ok:" ++ renderPairs m
+            | .err => "err"
+            | .panic => "panic"
+          s!"ok {imgDigest g} un={un}"
+        | .err => "err"
+        | .panic => "panic"
+      | none => "bad-request"
+    | _, _, _, _, _, _ => "bad-request"
+  | ["fimg2json", ver, fsn, cl, eof, typ, aux, acc, accd, cr, md, vs, mv, path, chunks] =>
+    match ofHex ver, ofHex fsn, cl.toNat?, ofHex eof, ofHex typ, ofHex aux, ofHex acc with
+    | some ver, some fsn, some cl, some eof, some typ, some aux, some acc =>
+      match ofHex accd, ofHex cr, ofHex md, ofHex vs, ofHex mv, ofHex path, parsePairs chunks with
+      | some accd, some cr, some md, some vs, some mv, some path, some cs =>
+        let f : FImg := { fimgVersion := ver, fileSystem := fsn, chunkLen := cl, eof := eof, fsType := typ, aux := aux,
+                          access := acc, accessed := accd, created := cr, modified := md, version := vs,
+                          minVersion := mv, fullPath := path, chunks := cs }
+        let j := fimgToJson f
+        let back := match fimgFromJson j with
+          | .ok g => if g == f then "same" else "differs"
+          | .err => "err"
+          | .panic => "panic"
+        s!"{digest ((renderJ j).toList.map Char.toNat)} back={back}"
+      | _, _, _, _, _, _, _ => "bad-request"
+    | _, _, _, _, _, _, _ => "bad-request"
+  | ["json2fimg", tree] =>
+    match parseTree tree with
+    | some j =>
+      match fimgFromJson j with
+      | .ok g => "ok " ++ fullDigest g
+      | .err => "err"
+      | .panic => "panic"
+    | none => "bad-request"
+  | ["recs2json", recLen, recs] =>
+    match recLen.toNat?, parsePairs recs with
+    | some rl, some rs =>
+      let j := recsToJson rl rs
+      let back := match recsFromJson j with
+        | .ok (l, m) => if l == rl && m == rs then "same" else "differs"
+        | .err => "err"
+        | .panic => "panic"
+      s!"{digest ((renderJ j).toList.map Char.toNat)} back={back}"
+    | _, _ => "bad-request"
+  | ["json2recs", tree] =>
+    match parseTree tree with
+    | some j =>
+      match recsFromJson j with
+      | .ok (l, m) => s!"ok len={l} {renderPairs m}"
+      | .err => "err"
+      | .panic => "panic"
+    | none => "bad-request"
+  | _ => "bad-request"
 
 end A2Verif.Drv.C13
